@@ -20,6 +20,23 @@ CHECKS = {
          "and refuted for the pre-fix code by empty_range_prefix_refuted."),
    ref='DESIGN.md §5 C15, §11 A3'),
 }
+import re
+def from_notes(pid):
+    fn = os.path.join(V, 'notes', pid + '.md')
+    if not os.path.exists(fn): return None
+    t = open(fn).read()
+    def grab(key):
+        m = re.search(r'`?%s`?\s*:\s*"(.*?)"\s*(?:\n|$)' % re.escape(key), t, flags=re.S)
+        return re.sub(r'\s+', ' ', m.group(1)).strip() if m else None
+    a, b = grab('level_claimed.text'), grab('level_note')
+    return (a, b) if a and b else None
+# properties whose check is registered (engine label); text comes from CHECKS or from notes/<ID>.md
+REGISTERED = {'C15': 'E1', 'C20': 'E1'}
+for pid, eng in REGISTERED.items():
+    if pid not in CHECKS:
+        r = from_notes(pid)
+        assert r, 'no manifest text for ' + pid
+        CHECKS[pid] = dict(engine=eng, text=r[0], note=r[1], ref='DESIGN.md §5 ' + pid + ', notes/' + pid + '.md')
 PENDING_REASON = 'machinery for this property is still being built at this commit (DESIGN.md §10 order of work); not claimed until its check passes on the unchanged tree'
 
 man = {
